@@ -516,9 +516,14 @@ def check_text(text: str) -> str | None:
     from pest import Parser
     from pest.grammar.exceptions import PestGrammarError
 
+    from replay.limits import DidNotTerminate, time_limit
+
     try:
-        Parser.from_grammar(text)
+        with time_limit(10):
+            Parser.from_grammar(text)
         return None
+    except DidNotTerminate as e:
+        return f"from_grammar {e}"
     except PestGrammarError as e:
         try:
             msg = str(e)
